@@ -11,8 +11,8 @@ def run():
     chk.add_model("MpiPollImpl/variant drop_base (must violate)", r, note="violated: %s" % r["violated"])
     chk.add_model("ActivityImpl (wait() vs. in-flight work counter)", vlib.model_check("ActivityImplMC", "ActivityImpl.cfg", timeout=600))
     (binary,) = vlib.build_harness(["mpi_harness"])
-    nruns = 32 if chk.thorough() else 10
-    nhist = 40 if chk.thorough() else 16
+    nruns = 48 if chk.thorough() else 16
+    nhist = 40 if chk.thorough() else 20
     env = {"OMPI_MCA_btl": "self"}
     runs = [([chk.seed * 1000 + i, nhist, 1 if i % 3 else 0, "--pika:threads=%d" % [4, 2, 3, 1][i % 4]], env)
             for i in range(nruns)]
